@@ -206,3 +206,19 @@ def apply_edit(continuum, op):
         continuum.remove(op[1], [u for u in continuum[op[1]] if u.segment == Segment(op[2], op[3])][0])
     elif kind == "reset_bounds":
         continuum.reset_bounds()
+
+
+def near_tie_cases(rng, ks, u=8.0):
+    """3-annotator continua in which two annotators agree on a unit and the third places the same unit at a distance x
+    swept through the point where "one unitary alignment of three" and "a pair plus a singleton" cost the same with the
+    positional dissimilarity (2*(2x/2u)^2 = 5 delta_empty, x = u*sqrt(2.5): measured on the unchanged library), in steps
+    of 1/256.  On either side of the tie the cheaper alignment is the only optimum."""
+    out = []
+    names3 = cases.ANNOTATOR_NAMES[:3]
+    for k in ks:
+        x = round(u * 2.5 ** 0.5 * 256) / 256 + k / 256.0
+        order = rng.sample(names3, 3)
+        ann = {order[0]: [[0.0, u, "a"], [40.0, 44.0, "b"]], order[1]: [[0.0, u, "a"], [40.0, 44.5, "b"]],
+               order[2]: [[x, x + u, "a"], [40.5, 44.0, "b"]]}
+        out.append({"ann": {a: ann[a] for a in names3}, "family": "near-tie"})
+    return out
